@@ -230,10 +230,32 @@ inductive Phase (list : List Sym) (body : List Nat) (s : St) : Prop where
   | done (nomore : s.hasMore = false) (dec : ∃ e, decRun .ascii { rest := s.cw, eaten := 0, out := [], ecis := [] } =
         .ok { rest := [], eaten := e, out := body, ecis := [] }) (fit : ExactFit list s.cw.length)
 
+/-- the first codeword is not one of those `decode_parts` looks at before the main loop -/
+def HeadOK (cw : List Nat) : Prop := ∀ c ∈ cw.head?, c ≠ 232 ∧ c ≠ 236 ∧ c ≠ 237
+
+theorem headOK_append {A B : List Nat} (ha : HeadOK A) (hb : HeadOK B) : HeadOK (A ++ B) := by
+  cases A with
+  | nil => simpa using hb
+  | cons a t => intro c hc; exact ha c (by simpa using hc)
+
+theorem headOK_cons (c : Nat) (t : List Nat) (h : c ≠ 232 ∧ c ≠ 236 ∧ c ≠ 237) : HeadOK (c :: t) := by
+  intro x hx; simp at hx; subst hx; exact h
+
+theorem headOK_asciiSeg {X chunk : List Nat} (h : AsciiSeg X chunk) : HeadOK X := by
+  intro c hc
+  cases X with
+  | nil => simp at hc
+  | cons x t =>
+    simp only [List.head?_cons, Option.mem_def, Option.some.injEq] at hc
+    subst hc
+    have := h.1 x (by simp)
+    exact ⟨this.2.2.1, this.2.2.2.1, this.2.2.2.2⟩
+
 structure MI (list : List Sym) (body : List Nat) (s : St) : Prop where
   inp : s.input = body
   lst : s.list = list
   le : s.pos ≤ body.length
+  hd : HeadOK s.cw
   phase : Phase list body s
 
 theorem niceTail_cons (c : Nat) (t : List Nat) (h : c ≠ 254) : NiceTail (c :: t) := by
@@ -241,9 +263,10 @@ theorem niceTail_cons (c : Nat) (t : List Nat) (h : c ≠ 254) : NiceTail (c :: 
 
 /-- a C40 / Text / X12 run extends the invariant -/
 theorem tend_MI (list : List Sym) (body : List Nat) (p0 : Nat) (c0 : List Nat) (latch : Nat) (hl : latch ≠ 254)
+    (hl2 : latch ≠ 232 ∧ latch ≠ 236 ∧ latch ≠ 237) (hc0 : HeadOK c0)
     (s' : St) (hsync : Sync body c0 p0) (h : TEnd list body p0 c0 latch s') : MI list body s' := by
   obtain ⟨X, p, un, hsd, hp0, hp, hcw, hpos, hin, hli, hctl, hex⟩ := h.out
-  refine ⟨hin, hli, by rw [hpos]; exact hp, ?_⟩
+  refine ⟨hin, hli, by rw [hpos]; exact hp, by rw [hcw, List.append_assoc]; exact headOK_append hc0 (headOK_cons latch _ hl2), ?_⟩
   have hstep : ∀ tail, TripleTail un tail →
       decRun .ascii { rest := s'.cw ++ tail, eaten := 0, out := [], ecis := [] } =
       decRun .ascii { rest := tail, eaten := s'.cw.length, out := body.take s'.pos, ecis := [] } := by
@@ -293,10 +316,11 @@ theorem tend_MI (list : List Sym) (body : List Nat) (p0 : Nat) (c0 : List Nat) (
       rw [this, decRun_nil _ _ rfl, hpl, List.take_length]
 
 /-- a Base 256 run extends the invariant -/
-theorem bend_MI (list : List Sym) (body : List Nat) (hb : ByteList body) (p0 : Nat) (c0 : List Nat)
+theorem bend_MI (list : List Sym) (body : List Nat) (hb : ByteList body) (p0 : Nat) (c0 : List Nat) (hc0 : HeadOK c0)
     (s' : St) (hsync : Sync body c0 p0) (h : BEnd list body p0 c0 s') : MI list body s' := by
   obtain ⟨p, toEnd, hp0, hp, hcw, hpos, hin, hli, hte, htf, hctl⟩ := h.out
-  refine ⟨hin, hli, by rw [hpos]; exact hp, ?_⟩
+  refine ⟨hin, hli, by rw [hpos]; exact hp,
+    by rw [hcw, List.append_assoc]; exact headOK_append hc0 (headOK_cons 231 _ (by omega)), ?_⟩
   have hstep : ∀ tail, NiceTail tail → B256OK (seg body p0 p) toEnd tail →
       decRun .ascii { rest := s'.cw ++ tail, eaten := 0, out := [], ecis := [] } =
       decRun .ascii { rest := tail, eaten := s'.cw.length, out := body.take s'.pos, ecis := [] } := by
@@ -365,7 +389,8 @@ theorem step_MI (list : List Sym) (body : List Nat) (hb : ByteList body) (s s' :
     have hrb : ByteList (body.drop s.pos) := hb.drop _
     have hseg := asciiSeg_asciiEnc _ hrb
     have haszlen : (asciiEnc (body.drop s.pos)).length = asciiSize (body.drop s.pos) := asciiEnc_length _ _ (Nat.le_refl _)
-    refine ⟨mi.inp, mi.lst, by simp [mi.inp], .done (by simp [St.hasMore]) ⟨s.cw.length + (asciiEnc (body.drop s.pos)).length, ?_⟩
+    refine ⟨mi.inp, mi.lst, by simp [mi.inp], by simp only [hrest]; exact headOK_append mi.hd (headOK_asciiSeg hseg),
+      .done (by simp [St.hasMore]) ⟨s.cw.length + (asciiEnc (body.drop s.pos)).length, ?_⟩
       (by simpa [hrest, haszlen] using fit)⟩
     simp only [hrest]
     have htail : NiceTail (asciiEnc (body.drop s.pos)) := by
@@ -396,7 +421,7 @@ theorem step_MI (list : List Sym) (body : List Nat) (hb : ByteList body) (s s' :
         have := asciiLoop_pos_le _ s s' h (by rw [mi.inp]; exact mi.le)
         rw [mi.inp] at this
         exact this
-      refine ⟨hin', c4.2.trans mi.lst, hle', ?_⟩
+      refine ⟨hin', c4.2.trans mi.lst, hle', by rw [c1]; exact headOK_append mi.hd (headOK_asciiSeg c2), ?_⟩
       have hchunk : body.take s'.pos = body.take s.pos ++ (s.input.drop s.pos).take (s'.pos - s.pos) := by
         rw [mi.inp]
         have : s'.pos = s.pos + (s'.pos - s.pos) := by omega
@@ -454,7 +479,7 @@ theorem step_MI (list : List Sym) (body : List Nat) (hb : ByteList body) (s s' :
             by simp [Wb, hLpos, seg_self], by simp, by simp [Wb, hLpos, seg_self, packTriples, latchOf, hLcw], by omega⟩
         have hend := c40Loop_gen false list body hb s.pos s.cw (body.length - s.pos) (sL.charsLeft + 2) sL [] 0 0 s'
           (by rw [hLpos]) (by omega) inv0 hLplan h
-        exact tend_MI list body s.pos s.cw (latchOf false) (by simp [latchOf]) s' sync (c40_to_TEnd false list body s.pos s.cw s' hend)
+        exact tend_MI list body s.pos s.cw (latchOf false) (by simp [latchOf]) (by simp [latchOf]) mi.hd s' sync (c40_to_TEnd false list body s.pos s.cw s' hend)
       | text =>
         rw [hm] at hlat hLmode
         simp only [EMode.latch, Option.some.injEq] at hlat
@@ -465,14 +490,14 @@ theorem step_MI (list : List Sym) (body : List Nat) (hb : ByteList body) (s s' :
             by simp [Wb, hLpos, seg_self], by simp, by simp [Wb, hLpos, seg_self, packTriples, latchOf, hLcw], by omega⟩
         have hend := c40Loop_gen true list body hb s.pos s.cw (body.length - s.pos) (sL.charsLeft + 2) sL [] 0 0 s'
           (by rw [hLpos]) (by omega) inv0 hLplan h
-        exact tend_MI list body s.pos s.cw (latchOf true) (by simp [latchOf]) s' sync (c40_to_TEnd true list body s.pos s.cw s' hend)
+        exact tend_MI list body s.pos s.cw (latchOf true) (by simp [latchOf]) (by simp [latchOf]) mi.hd s' sync (c40_to_TEnd true list body s.pos s.cw s' hend)
       | x12 =>
         rw [hm] at hlat hLmode
         simp only [EMode.latch, Option.some.injEq] at hlat
         subst hlat
         simp only [encodeMode, hLmode] at h
         have hend := x12Encode_gen list body s.pos s.cw sL s' hLin hLli hLpos mi.le hLnm hLcw hLplan h
-        exact tend_MI list body s.pos s.cw 238 (by omega) s' sync hend
+        exact tend_MI list body s.pos s.cw 238 (by omega) (by omega) mi.hd s' sync hend
       | base256 =>
         rw [hm] at hlat hLmode
         simp only [EMode.latch, Option.some.injEq] at hlat
@@ -486,6 +511,77 @@ theorem step_MI (list : List Sym) (body : List Nat) (hb : ByteList body) (s s' :
         have hend := b256Loop_gen list body hb s.pos s.cw (body.length - s.pos) (sL.charsLeft + 2) (sL.push 0) s'
           (by simp [St.push, hLpos]) (by omega) inv0 (by simpa [St.push] using hLplan)
           (Or.inl (by simp only [St.hasMore, St.push, hLin, hLpos]; simpa [St.hasMore, mi.inp] using hmore)) h
-        exact bend_MI list body hb s.pos s.cw s' sync hend
+        exact bend_MI list body hb s.pos s.cw mi.hd s' sync hend
+
+/-! ### the main loop and the whole run -/
+
+theorem mainLoop_MI (list : List Sym) (body : List Nat) (hb : ByteList body) :
+    ∀ (f : Nat) (s : St) (k : Nat) (sE : St), Enc.mainLoop f s k = .ok sE → MI list body s →
+      MI list body sE ∧ sE.hasMore = false := by
+  intro f
+  induction f with
+  | zero => intro s k sE h; cases h
+  | succ f ih =>
+    intro s k sE h mi
+    by_cases hmore : s.hasMore = true
+    · obtain ⟨s', k', he, hm⟩ := mainLoop_step f s sE k h hmore
+      exact ih s' k' sE hm (step_MI list body hb s s' mi hmore he)
+    · have hmf : s.hasMore = false := by simpa using hmore
+      rw [mainLoop_end _ _ _ hmf] at h
+      simp only [Except.ok.injEq] at h
+      subst h
+      exact ⟨mi, hmf⟩
+
+/-- **Data-level round trip for mixed plans** over ASCII, C40, Text, X12 and Base 256 in which no
+latch to a non-ASCII mode is planned for the last four characters. -/
+theorem general_roundtrip (list : List Sym) (body cw : List Nat) (plan : List (Nat × EMode)) (sym : Sym)
+    (hb : ByteList body) (hplan : PlanOK plan) (h : run list [] body plan = .ok (cw, sym)) :
+    decodeData cw = .ok body := by
+  obtain ⟨sE, hmain, hsym, hpad⟩ := run_unfold list body plan cw sym h
+  have mi0 : MI list body { input := body, pos := 0, mode := .ascii, plan := plan, newMode := none, cw := [], list := list } :=
+    ⟨rfl, rfl, Nat.zero_le _, by intro c hc; simp at hc,
+      .normal (sync_init body) (Or.inl ⟨rfl, rfl⟩) hplan (fun hne => absurd rfl hne)⟩
+  obtain ⟨miE, hmf⟩ := mainLoop_MI list body hb _ _ 0 sE hmain mi0
+  have hpl : sE.pos = body.length := by
+    have := of_decide_eq_false hmf
+    rw [miE.inp] at this
+    have := miE.le
+    omega
+  cases miE.phase with
+  | endgame more _ _ _ _ _ _ => rw [hmf] at more; cases more
+  | done _ dec fit =>
+    obtain ⟨S, f1, f2⟩ := fit
+    rw [f1] at hsym
+    simp only [Option.some.injEq] at hsym
+    subst hsym
+    rw [addPadding_exact _ _ _ f2.symm] at hpad
+    simp only [Option.some.injEq] at hpad
+    subst hpad
+    obtain ⟨e, hdec⟩ := dec
+    exact decodeData_of_decRun _ body e miE.hd hdec
+  | normal sync pend _ more =>
+    have hnm : sE.newMode = none := by
+      cases hn : sE.newMode with
+      | none => rfl
+      | some l => have := more (by rw [hn]; simp); rw [hmf] at this; cases this
+    have hmode : sE.mode = .ascii := by
+      rcases pend with ⟨a, _⟩ | ⟨l, _, b, _⟩
+      · exact a
+      · rw [hnm] at b; cases b
+    have hcap := firstBigEnough_le list _ sym hsym
+    have hbeq : (EMode.ascii == EMode.ascii) = true := by decide
+    rw [hmode, hbeq, addPadding_ascii_pads _ _ hcap] at hpad
+    simp only [Option.some.injEq] at hpad
+    subst hpad
+    obtain ⟨ef, hpads⟩ := DM.Props.C04.decRun_pads sE.cw.length (dataCw sym - sE.cw.length) body []
+    have hnice : NiceTail (DM.Props.C04.padsOf sE.cw.length (dataCw sym - sE.cw.length)) := by
+      unfold NiceTail DM.Props.C04.padsOf
+      split <;> simp
+    apply decodeData_of_decRun _ body ef
+    · apply headOK_append miE.hd
+      unfold HeadOK DM.Props.C04.padsOf
+      split <;> simp
+    · rw [sync _ hnice, hpl, List.take_length]
+      exact hpads
 
 end DM.Lemmas.MainRT
